@@ -85,6 +85,11 @@ static void body(const vh::Lines &ls) {
 			Ctx *c = new Ctx{opts.size()}; ctxs.push_back(c);
 			opts.push_back(frg::option{frg::string_view{nb.p, nb.n}, frg::option::fn_type{on_apply, c, t[2] == "1"}});
 			targets.push_back({"", nullptr});
+		} else if(t[0] == "nopt") {
+			// a reserved / unbound option: null handler; option::apply must stop in FRG_ASSERT(fn.ptr)
+			Block nb = exact(unhex(t[1]));
+			opts.push_back(frg::option{frg::string_view{nb.p, nb.n}, frg::option::fn_type{nullptr, nullptr, t[2] == "1"}});
+			targets.push_back({"", nullptr});
 		} else if(t[0] == "ropt") {
 			Block nb = exact(unhex(t[1]));
 			const std::string &k = t[2];
